@@ -6,7 +6,6 @@ package main
 
 import (
 	"context"
-	"errors"
 	"fmt"
 	"io"
 	"strings"
@@ -619,5 +618,3 @@ func c15case(s *Sexp) string {
 }
 
 func init() { handlers["C15"] = c15case }
-
-var _ = errors.New
